@@ -133,6 +133,7 @@ theorem arcProf_step (H : IdFn) (g : Graph) (u : Upd) :
           split
           · exact (sameProf_sendPolicyUpdate H _ _).trans h2
           · exact h2
+  | passthru c key v => exact sameProf_emit g _
   | other => rfl
 
 /-- the profile-path inputs of a history -/
